@@ -163,6 +163,14 @@ static int run_lu(Rng& rng) {
         for (int r = 0; r < nrhs; r++) {
             std::vector<double> b(n);
             for (auto& x : b) x = rng.nice(-4, 4) * (scaled ? std::ldexp(1.0, rng.range(-20, 20)) : 1.0);
+            // sparse right-hand sides: unit vectors, leading / trailing exact zeros, a single interior block
+            switch ((c + r) % 5) {
+            case 1: { int kk = rng.range(0, n - 1); for (int i = 0; i < n; i++) if (i != kk) b[i] = 0.0; break; }
+            case 2: { int kk = rng.range(0, n - 1); for (int i = kk + 1; i < n; i++) b[i] = 0.0; break; }
+            case 3: { int kk = rng.range(0, n - 1); for (int i = 0; i < kk; i++) b[i] = 0.0; break; }
+            case 4: { int k1 = rng.range(0, n - 1), k2 = rng.range(k1, n - 1); for (int i = 0; i < n; i++) if (i < k1 || i > k2) b[i] = 0.0; break; }
+            default: break;
+            }
             std::vector<double> x = b;
             lu.solveInPlace(x.data());
             if (arrays) {
